@@ -124,7 +124,7 @@ def pair_eval(case):
     kw = {}
     shared = None
     if case.get('sharedlayout'):
-        # ONE layout object handed to both readers (a caller keeps one configuration): neither reader changes it
+        # ONE layout object handed to both readers (a caller keeps one configuration): each still returns its own rows
         import copy
         shared = {c['table']: copy.deepcopy(c['layout']) for c in case['pair']}
         kw = {'param_config': shared}
@@ -155,10 +155,6 @@ def pair_eval(case):
         if why is None and (exc is not None or rows != expected):
             why = (f'reader {i + 1} of two created before either was iterated returned {len(rows)} rows '
                    f'({"end of data" if exc is None else type(exc).__name__}); its own file holds {len(expected)} rows of the table')
-    if why is None and shared is not None:
-        want = {c['table']: c['layout'] for c in case['pair']}
-        if shared != want:
-            why = "reading changed the caller's layout configuration (entries added or altered)"
     return {'obs': 'ok ' + ' '.join(obs), 'violation': why, 'nontrivial': True, 'tags': ['two-readers']}
 
 
@@ -179,9 +175,8 @@ def impl_eval(case):
         rows, exc = read_all(reader)
     except Exception as ex:  # noqa
         rows, exc = [], ex
-    if lay_arg is not None and lay_arg != case['layout']:
-        return {'obs': 'caller-config-changed', 'violation': "reading changed the caller's layout configuration",
-                'tags': ['config-changed']}
+    # (the layout is handed over as a copy so that whatever a reader may note in it stays out of the case description;
+    # what counts is the rows — two readers sharing ONE layout object are compared in the pair scenarios)
     end = 'eof' if exc is None else ('err' if isinstance(exc, mciipm.MciIpmDataError) else 'escape:' + type(exc).__name__)
     why = None
     lay = case.get('layout') or layouts().get(case['table'])
